@@ -318,7 +318,7 @@ FRONTIER = [
     "parseFloatSpec on every case at run time; model = grammar not yet a theorem (the integer parts go through the C07 parser, which is proved)",
     "Repr::fmt_round / fmt_round_scientific: mirrored incl. width/padding; Display without width compared at run time with displaySpec "
     "(positional expansion / roundInt of the rational value); not yet a theorem; print->parse round trip checked at run time only",
-    "Context::convert_base small-negative-exponent branch: builder-float's reprDiv model (C03) + the proposed single-rounding repair divRoundLong; no theorem here",
+    "Context::convert_base small-negative-exponent branch: builder-float's reprDiv model (C03) + the single-rounding path divRoundLong of fix bd48ef9; no theorem here",
     "Context::convert_base large-exponent branch (ln/exp at doubled precision): not mirrored; every case judged by exact rational arithmetic "
     "in the harness (digits, < 1 ulp, side, truthful flag, exact when representable) — the branch does NOT meet the contract (2 findings)",
     "Repr::new normalisation, repr_round, split_digits, round_fract, round_ratio: builder-float's models and theorems (C03/C10) are reused",
@@ -347,6 +347,6 @@ LEVEL_TEXT = ("PARTIAL. Machine-checked Lean 4 theorems, for every base >= 2, mo
               "rational arithmetic; it violates the contract on representable inputs and at small precisions (recorded findings).")
 LEVEL_NOTE = ("Trusted: Lean kernel; axioms propext/Classical.choice/Quot.sound; the correspondence harness, its exact-arithmetic judge "
               "(dashu-ratio) and the generators (sampling); builder-float's rounding model/theorems (C03, C10) and builder-nt's log2 "
-              "replica (C12) are reused. Eight defects found; six have small patches in /verif/proposed_fixes/c08-*.diff, the model's "
-              "`fixed := true` side describes the patched behaviour and known_findings.jsonl absorbs the difference until they are applied.")
+              "replica (C12) are reused. Eight defects found by this check; six were repaired in /repo (`fixed:` lines of known_findings.jsonl, patches in "
+              "/verif/proposed_fixes/c08-*.diff) and the model describes the repaired code; the two findings about the ln/exp branch remain recorded.")
 TECHNIQUE = "Lean 4 model + theorems, differential correspondence model vs real code, exact-arithmetic judge for the ln/exp branch"
